@@ -87,6 +87,11 @@ func (s *streamWS) RecvMsg(m interface{}) error {
 	if s.recvEOF {
 		return io.EOF
 	}
+	if !s.method.hasBody && s.recvN > 1 {
+		// A binding without a body carries its one request in the URL.
+		s.recvEOF = true
+		return io.EOF
+	}
 	if s.method.hasBody {
 		cur := args.ProtoReflect()
 		for _, fd := range s.method.body {
